@@ -21,7 +21,7 @@ func (t *TextTemplater) Apply(payload []byte, metadata map[string]string, variab
 	const op = "scenario/TextTemplater.Apply"
 
 	strBuilder := &strings.Builder{}
-	tmpl, err := t.getTemplate(string(payload), scenarioName, stepName, "payload")
+	tmpl, err := t.getTemplate(string(payload), templateKey{scenarioName, stepName, payloadTemplate, ""})
 	if err != nil {
 		return nil, fmt.Errorf("%s, template.getTemplate payload, %w", op, err)
 	}
@@ -33,7 +33,7 @@ func (t *TextTemplater) Apply(payload []byte, metadata map[string]string, variab
 	strBuilder.Reset()
 
 	for k, v := range metadata {
-		tmpl, err = t.getTemplate(v, scenarioName, stepName, k)
+		tmpl, err = t.getTemplate(v, templateKey{scenarioName, stepName, metadataTemplate, k})
 		if err != nil {
 			return nil, fmt.Errorf("%s, template.Execute Header %s, %w", op, k, err)
 		}
@@ -47,16 +47,28 @@ func (t *TextTemplater) Apply(payload []byte, metadata map[string]string, variab
 	return []byte(payloadStr), nil
 }
 
-func (t *TextTemplater) getTemplate(tmplBody, scenarioName, stepName, key string) (*template.Template, error) {
-	urlKey := fmt.Sprintf("%s_%s_%s", scenarioName, stepName, key)
-	tmpl, ok := t.templatesCache.Load(urlKey)
+const (
+	payloadTemplate  = "payload"
+	metadataTemplate = "metadata"
+)
+
+// templateKey identifies a cached template. A struct (not a joined string) keeps the payload
+// template apart from a metadata key that happens to be named "payload", and scenario/step
+// names containing the separator apart from each other.
+type templateKey struct {
+	scenario, step, kind, name string
+}
+
+func (t *TextTemplater) getTemplate(tmplBody string, key templateKey) (*template.Template, error) {
+	tmpl, ok := t.templatesCache.Load(key)
 	if !ok {
 		var err error
-		tmpl, err = template.New(urlKey).Funcs(templater.GetFuncs()).Parse(tmplBody)
+		name := fmt.Sprintf("%s_%s_%s_%s", key.scenario, key.step, key.kind, key.name)
+		tmpl, err = template.New(name).Funcs(templater.GetFuncs()).Parse(tmplBody)
 		if err != nil {
 			return nil, fmt.Errorf("scenario/TextTemplater.Apply, template.New, %w", err)
 		}
-		t.templatesCache.Store(urlKey, tmpl)
+		t.templatesCache.Store(key, tmpl)
 	}
 	return tmpl.(*template.Template), nil
 }
